@@ -8,6 +8,11 @@ import sib
 from facts import (walk, peel, src, loc, callee_is, callee, strip_generics, _pat_binds, children)
 
 RULES = {
+    'PARSE.order': 'DateTime::parse tries the date-time reading of a format before the date-only reading '
+                   '(chrono\'s NaiveDate::parse_from_str accepts a format with time fields and drops them, '
+                   'so the other order parses every date-time text to midnight): a result taken from the '
+                   'date-only parser is conditioned on the failure of the date-time parser with the same '
+                   'arguments, never the reverse',
     'NAT.guard': 'an operator / conversion on NaT-capable operands produces a non-NaT result '
                  'only on paths where every such operand was tested not-NaT (or goes through a '
                  'fallible calendar constructor whose domain excludes i64::MIN)',
@@ -330,6 +335,47 @@ def check_time_ctors(run, F):
         okp = okp and bool(mm) and mm.group(1) == mm.group(2)
     run.ob('TBL.time', fp, 'parse builds nanos like from_cr', okp, fp.loc(),
            'leaves %s' % [l[-90:] for cs, l, ef in tp])
+
+
+def check_parse_order(run, F):
+    fns = [f for f in F.fns if f.crate == 'tea_time' and f.qpath.endswith('DateTime::<U>::parse')]
+    if len(fns) != 1:
+        run.ob('PARSE.order', 'tea_time', 'DateTime::parse present', False, '', '%d functions' % len(fns))
+        return 0
+    fn = fns[0]
+    import pinned
+    root = pinned.expand_options(fn.hir)
+    env = {}
+    for i_, p_ in enumerate(b for q in fn.params for b in _pat_binds(q)):
+        env[p_['local']] = 'p%d' % i_
+    tables = [('explicit format', dtree.table(root, env))]
+    for x in walk(root):
+        if x.get('k') == 'For':
+            tables.append(('format list', dtree.body_table(root, x, env)))
+    n = 0
+    DT = re.compile(r'(!?)NaiveDateTime::parse_from_str\((.*)\) is (?:\w+::)*Ok\(_\)')
+    D = re.compile(r'(!?)NaiveDate::parse_from_str\((.*)\) is (?:\w+::)*Ok\(_\)')
+    for name, t in tables:
+        bad = []
+        rows = 0
+        for cs, leaf, ef in t:
+            dts = {(m.group(1), m.group(2)) for c in cs for m in [DT.fullmatch(c)] if m}
+            ds = {(m.group(1), m.group(2)) for c in cs for m in [D.fullmatch(c)] if m}
+            for neg, args_ in ds:
+                if neg == '':
+                    rows += 1
+                    if ('!', args_) not in dts:
+                        bad.append('date-only result without a failed date-time parse of (%s)' % args_)
+            for neg, args_ in dts:
+                if neg == '':
+                    rows += 1
+                    if ('!', args_) in ds:
+                        bad.append('date-time parse of (%s) attempted only after the date-only parse failed' % args_)
+        n += 1
+        run.ob('PARSE.order', fn, name, rows >= 2 and not bad, fn.loc(),
+               '%d parser-success row(s); %s' % (rows, '; '.join(bad) if bad else 'date-time reading first'))
+    run.floor('PARSE.order', 'parse branches of DateTime::parse', n, 2)
+    return n
 
 
 def check_mirrors(run, F):
